@@ -35,7 +35,8 @@ ENTRY = {
 TYPES = ["certificate::CertificateParams", "certificate::Certificate", "crl::CertificateRevocationListParams", "crl::CertificateRevocationList",
          "csr::CertificateSigningRequestParams", "csr::CertificateSigningRequest", "DistinguishedName", "key_pair::KeyPair", "key_pair::SubjectPublicKeyInfo", "csr::PublicKey"]
 NONDET = ("HashMap::iter", "HashMap::keys", "HashMap::values", "HashMap::into_iter", "HashMap::drain", "HashMap::iter_mut", "HashMap::values_mut", "hash_map::", "HashSet::iter", "HashSet::into_iter",
-          "SystemTime::now", "Instant::now", "OffsetDateTime::now_utc", "OffsetDateTime::now_local", "SystemRandom", "rand::", "getrandom", "std::env::", "thread::current", "ThreadId", "RandomState::new", "std::process::id")
+          "SystemTime::now", "Instant::now", "OffsetDateTime::now_utc", "OffsetDateTime::now_local", "SystemRandom", "rand::", "getrandom", "std::env::", "thread::current", "ThreadId", "RandomState::new", "std::process::id",
+          "LocalKey", "thread_local", "OnceLock", "OnceCell", "LazyLock", "Mutex", "RwLock", "atomic::", "Cell::", "RefCell", "std::fs::", "std::net::Tcp", "std::net::Udp", "ToSocketAddrs", "hostname")
 
 
 def callgraph(crate, roots_, cut):
